@@ -153,6 +153,7 @@ class State:
         self.returned = False
         self.raised = False
         self.assumed = False
+        self.continued = False  # left the current iteration of a Python loop with `continue`
         self.looplocals: Set[str] = set()
         self.dead_emit_reported = False
         self.bind: Dict[str, Lin] = {}
@@ -201,6 +202,7 @@ class State:
         s.deferred = list(self.deferred)
         s.ctxflags = dict(self.ctxflags)
         s.returned = self.returned
+        s.continued = self.continued
         s.raised = self.raised
         s.assumed = self.assumed
         s.looplocals = set(self.looplocals)
@@ -359,7 +361,7 @@ class EmitAnalysis:
         for s in stmts:
             nxt: List[State] = []
             for st in states:
-                if st.returned or st.raised or st.assumed:
+                if st.returned or st.raised or st.assumed or st.continued:
                     nxt.append(st)
                 else:
                     nxt.extend(self.stmt(s, st))
@@ -378,6 +380,7 @@ class EmitAnalysis:
                 s.returned,
                 s.raised,
                 s.assumed,
+                s.continued,
                 tuple(sorted(s.dec.items())),
                 tuple(sorted(s.ctxflags.items())),
                 tuple(sorted(s.outstanding)),
@@ -421,8 +424,12 @@ class EmitAnalysis:
                 return inl
             self.ev(s.value, st)
             return [st]
-        if isinstance(s, (ast.Pass, ast.Import, ast.ImportFrom, ast.Break, ast.Continue)):
-            # break/continue of Python loops over compiler-internal stacks (no emits inside)
+        if isinstance(s, ast.Continue):
+            # the rest of this iteration is skipped; the loop handlers clear the mark
+            st.continued = True
+            return [st]
+        if isinstance(s, (ast.Pass, ast.Import, ast.ImportFrom, ast.Break)):
+            # break of Python loops over compiler-internal stacks (no emits inside)
             return [st]
         if isinstance(s, ast.Try):
             return self.block(s.body, [st])
@@ -549,6 +556,8 @@ class EmitAnalysis:
                 s2 = st.clone()
                 self._assign(s.target, elem, s2, s)
                 outs.extend(self.block(s.body, [s2]))
+            for o in outs:
+                o.continued = False
             # patches do not change depth; continue from the original state with outstanding cleared
             res = st
             for o in outs:
@@ -569,6 +578,8 @@ class EmitAnalysis:
             body_state.env[nm] = UNK
         ev0 = len(body_state.events)
         ends = self.block(s.body, [body_state])
+        for e in ends:
+            e.continued = False
         ends = [e for e in ends if not e.raised]
         if any(e.returned for e in ends):
             # early return inside a Python loop: keep those as end states
@@ -667,6 +678,8 @@ class EmitAnalysis:
         uid0 = self.uid
         try:
             ends = self.block(s.body, [body_state])
+            for e in ends:
+                e.continued = False
         except AnalysisError:
             ends = None
         ok = ends is not None
